@@ -31,6 +31,8 @@ class World(object):
                        trace=scenario.get('trace', False))
         self.sim.line_mute = sc.get('granularity', 'line') == 'io'
         self.sim.wall_jumps = scenario.get('wall_jumps')
+        if scenario.get('stall'):
+            self.sim.stall = dict(scenario['stall'])
         self.server = Server(self.sim, scenario.get('server', {}))
         self.net = Net(self.sim, self.server, scenario.get('net', {}))
         self.rand = make_rng('rand', scenario.get('rand_seed', 0))
@@ -45,15 +47,25 @@ class World(object):
         sim.yield_point(40)
         self.last_api_step = sim.steps
         inv = sim.log('call', name)
+        st = sim.stall
+        if st is not None and st.get('api') == name:
+            # (the plan applies to the skip-th call of that name)
+            st['seen'] = st.get('seen', 0) + 1
+            if st['seen'] == st.get('skip', 0) + 1:
+                st.update(tid=sim.current.tid, count=0)
         try:
             v = fn(*args, **kw)
         except SimAbort:
             raise
         except Exception as e:
+            if st is not None and st.get('tid') == sim.current.tid:
+                st['tid'] = None
             r = ApiResult(name, False, None, e, inv, None)
             r.ret = sim.log('ret', (name, type(e).__name__))
             self.calls.append(r)
             return r
+        if st is not None and st.get('tid') == sim.current.tid:
+            st['tid'] = None
         r = ApiResult(name, True, v, None, inv, None)
         self.last_api_step = sim.steps
         r.ret = sim.log('ret', (name, 'ok'))
